@@ -76,41 +76,40 @@ Proof. exact compile_privs_unskipped. Qed.
 Print Assumptions C16_api_programs_privs_unskipped.
 
 (* err_records_isolated: for ARBITRARY thread programs and schedules, whenever ly_err_first / ly_err_last hands a
-   thread a list of error items through a record pointer that is still valid, every item of the list was stored by
-   that same thread. (Through a dangling pointer anything can be observed: next theorem.) *)
+   thread a list of error items, every item of the list was stored by
+   that same thread. *)
 Theorem C16_err_records_isolated : forall d0 progs sched t items,
   In (t, EvErrGot (Some items)) (snd (run sched (init d0 progs))) ->
   forall it, In it items -> fst it = t.
 Proof. exact err_records_isolated. Qed.
 Print Assumptions C16_err_records_isolated.
 
-(* err_rec_pointer_stable - the pointer returned by ly_err_get_rec stays valid until it is used - is FALSE of the
-   model that follows the code (log.c:194-202 drops lyb_hash_lock before the callers dereference, log.c:243, 258,
-   310-317, 482-491; the records live inline in the arena that lyht_insert frees when it enlarges, hash_table.c:
-   406-412, 238). Witness: 6 threads; threads 0..4 log their first error; thread 0 calls ly_err_last and is
-   preempted after ly_err_get_rec; thread 5 logs its first error (6th record: 6*100/8 = 75 %: resize); thread 0
-   dereferences. The same schedule is forced on the C code by impl/t_conc.c (known finding err-rec-resize). *)
-Definition err_rec_pointer_stable : Prop :=
-  forall (opss : list (list apiop)) (sched : list tid),
-    count_ev is_dangling (snd (run sched (init (fun _ => 0) (map compile opss)))) = 0%nat.
+(* err_rec_pointer_stable at full strength: for ARBITRARY thread programs, any number of threads and every schedule, the
+   handle returned by ly_err_get_rec / ly_err_new_rec still names a record whenever it is used (ly_err_last/first,
+   ly_err_clean, log_store), although lyb_hash_lock was dropped in between and other threads create their records
+   (and enlarge = free the table's arena) meanwhile.
+   History: this was FALSE of the code before /repo commit 75f292f (records stored inline in the arena of err_ht;
+   err_rec_pointer_stable_refuted with a 6-thread schedule, and only C16_err_rec_pointer_stable_partial for <= 5
+   threads); since 75f292f the table stores pointers to separately allocated records and the model follows it. *)
+Definition err_rec_pointer_stable_statement : Prop :=
+  forall d0 (progs : list (list step)) (sched : list tid) t e,
+    In (t, e) (snd (run sched (init d0 progs))) -> is_dangling e = false.
 
-Theorem err_rec_pointer_stable_refuted :
-  exists (opss : list (list apiop)) (sched : list tid),
-    count_ev is_dangling (snd (run sched (init (fun _ => 0) (map compile opss)))) = 1%nat /\
-    count_ev is_bad_access (snd (run sched (init (fun _ => 0) (map compile opss)))) = 0%nat.
-Proof.
-  exists [[ALogStore 10; AErrLast]; [ALogStore 11]; [ALogStore 12]; [ALogStore 13]; [ALogStore 14]; [ALogStore 15]], w_err_fine.
-  vm_compute. split; reflexivity.
-Qed.
-Print Assumptions err_rec_pointer_stable_refuted.
+Theorem C16_err_rec_pointer_stable : err_rec_pointer_stable_statement.
+Proof. exact err_rec_pointer_stable. Qed.
+Print Assumptions C16_err_rec_pointer_stable.
 
-(* what does hold of err_rec_pointer_stable: with at most five threads (five records: 5*100/8 < 75) the arena is never
-   enlarged, and in every schedule of arbitrary programs no record pointer is dereferenced after its arena was freed *)
-Theorem C16_err_rec_pointer_stable_partial : forall d0 progs sched,
-  (length progs <= 5)%nat ->
-  forall t e, In (t, e) (snd (run sched (init d0 progs))) -> is_dangling e = false.
-Proof. exact err_rec_pointer_stable_small. Qed.
-Print Assumptions C16_err_rec_pointer_stable_partial.
+(* regression: the former refutation witness (threads 0..4 log an error; thread 0 is preempted in ly_err_last after
+   ly_err_get_rec; thread 5 logs its first error, the 6th record, which enlarges the table: generation 1; thread 0
+   continues) now dereferences nothing dangling and thread 0 reads exactly the item it stored *)
+Definition is_errgot (x : tid * event) : bool := match snd x with EvErrGot _ => true | _ => false end.
+Definition former_witness_run : state * trace := run w_err_fine (init (fun _ => 0) w_err_progs).
+Example C16_former_err_rec_witness :
+  count_ev is_dangling (snd former_witness_run) = 0%nat /\
+  s_egen (fst former_witness_run) = 1 /\
+  all_done (fst former_witness_run) = true /\
+  filter is_errgot (snd former_witness_run) = [(0%nat, EvErrGot (Some [(0%nat, 10)]))].
+Proof. vm_compute. repeat split; reflexivity. Qed.
 
 (* canon_cache_single_ref - concurrent first prints of one shared value take exactly one dictionary reference, so
    that freeing the tree once gives everything back - is FALSE of the model that follows the code
